@@ -8,7 +8,7 @@ Local Open Scope R_scope.
 Definition qpoly (a hb c t : R) : R := a * t * t + 2 * hb * t + c.
 
 Ltac unfold_solver :=
-  unfold solve_general, solve_along, solve_on, solve_c, mk_solver, isect2_list, no_isect2,
+  unfold solve_general, solve_along, solve_general_gen, solve_along_gen, along_strict_as_coded, solve_on, solve_c, mk_solver, isect2_list, no_isect2,
          min_a, sqrt_quadratic in *;
   cbn [qs_a_inv qs_hba fst snd] in *; numR.
 
@@ -143,145 +143,187 @@ Proof. reflexivity. Qed.
 Lemma min_a_R_pos : 0 < min_a_R.
 Proof. unfold min_a_R. lra. Qed.
 
-Theorem solve_along_spec hb c t :
-  (In (Some t) (isect2_list (solve_along (T:=R) hb c)) <-> min_a_R < Rabs hb /\ 0 <= t /\ 2 * hb * t + c = 0).
+Theorem solve_along_gen_spec strict hb c t :
+  (In (Some t) (isect2_list (solve_along_gen (T:=R) strict hb c))
+   <-> min_a_R < Rabs hb /\ (if strict then 0 < t else 0 <= t) /\ 2 * hb * t + c = 0).
 Proof.
-  unfold_solver. fold min_a_R.
+  unfold solve_along_gen, isect2_list, min_a, sqrt_quadratic. cbn [fst snd]. numR. fold min_a_R.
   destruct (Rltb_spec min_a_R (Rabs hb)) as [Hb|Hb].
   - assert (Hb0 : hb <> 0). { intros ->. rewrite Rabs_R0 in Hb. pose proof min_a_R_pos. lra. }
     assert (Hroot : forall x, 2 * hb * x + c = 0 <-> x = - c / (2 * hb)).
     { intros x. split; intros E.
       - apply Rmult_eq_reg_l with (2 * hb); [|lra]. field_simplify; lra.
       - rewrite E. field. assumption. }
-    destruct (Rltb_spec (- c / (2 * hb)) 0) as [H0|H0]; cbn.
-    + split; [intros [F|[F|[]]]; discriminate|]. intros (_ & Ht & E). apply Hroot in E. lra.
-    + split.
-      * intros [F|[F|[]]]; [|discriminate]. inversion F; subst. repeat split; try lra. apply Hroot. reflexivity.
-      * intros (_ & Ht & E). apply Hroot in E. left. rewrite E. reflexivity.
+    destruct strict.
+    + destruct (Rleb_spec (- c / (2 * hb)) 0) as [H0|H0]; cbn.
+      * split; [intros [F|[F|[]]]; discriminate|]. intros (_ & Ht & E). apply Hroot in E. lra.
+      * split.
+        -- intros [F|[F|[]]]; [|discriminate]. inversion F; subst. repeat split; try lra. apply Hroot. reflexivity.
+        -- intros (_ & Ht & E). apply Hroot in E. left. rewrite E. reflexivity.
+    + destruct (Rltb_spec (- c / (2 * hb)) 0) as [H0|H0]; cbn.
+      * split; [intros [F|[F|[]]]; discriminate|]. intros (_ & Ht & E). apply Hroot in E. lra.
+      * split.
+        -- intros [F|[F|[]]]; [|discriminate]. inversion F; subst. repeat split; try lra. apply Hroot. reflexivity.
+        -- intros (_ & Ht & E). apply Hroot in E. left. rewrite E. reflexivity.
   - cbn. split; [intros [F|[F|[]]]; discriminate|]. intros (F & _). lra.
 Qed.
 
-(** the zero distance is returned when the start point is exactly on the
-    surface although the state says "off" (all other branches drop t <= 0) *)
+(** as coded (`< 0`): the zero distance is returned when the start point is
+    exactly on the surface although the state says "off" (all other branches
+    drop t <= 0) *)
 Theorem solve_along_zero_refuted :
-  exists hb c, In (Some 0) (isect2_list (solve_along (T:=R) hb c)).
+  exists hb c, In (Some 0) (isect2_list (solve_along_gen (T:=R) false hb c)).
 Proof.
-  exists 1, 0. apply solve_along_spec. unfold min_a_R. rewrite Rabs_R1. lra.
+  exists 1, 0. apply solve_along_gen_spec. unfold min_a_R. rewrite Rabs_R1. lra.
 Qed.
+(** repaired (`<= 0`): strictly positive *)
+Theorem solve_along_positive_repaired hb c t :
+  In (Some t) (isect2_list (solve_along_gen (T:=R) true hb c)) -> 0 < t /\ 2 * hb * t + c = 0.
+Proof. intros Hin. apply solve_along_gen_spec in Hin. tauto. Qed.
 
-(** ** solve_general *)
-Theorem solve_general_off_exact a hb c t : min_a_R <= Rabs a ->
-  (In (Some t) (isect2_list (solve_general (T:=R) a hb c false)) <-> 0 < t /\ qpoly a hb c t = 0).
+(** ** solve_general (for either variant of the along-surface comparison) *)
+Ltac gen_window :=
+  unfold solve_general_gen; fold (min_a (T:=R)); rewrite min_a_R_eq;
+  change (nleb min_a_R (nabs ?a)) with (Rleb min_a_R (Rabs a)).
+
+Theorem solve_general_off_exact strict a hb c t : min_a_R <= Rabs a ->
+  (In (Some t) (isect2_list (solve_general_gen (T:=R) strict a hb c false)) <-> 0 < t /\ qpoly a hb c t = 0).
 Proof.
   intros Ha.
   assert (Ha0 : a <> 0). { intros ->. rewrite Rabs_R0 in Ha. pose proof min_a_R_pos. lra. }
-  unfold solve_general. fold (min_a (T:=R)). rewrite min_a_R_eq.
+  unfold solve_general_gen. fold (min_a (T:=R)). rewrite min_a_R_eq.
   change (nleb min_a_R (nabs a)) with (Rleb min_a_R (Rabs a)).
   destruct (Rleb_spec min_a_R (Rabs a)); [|lra].
   apply solve_c_spec. assumption.
 Qed.
-Theorem solve_general_on_exact a hb t : min_a_R <= Rabs a ->
-  (In (Some t) (isect2_list (solve_general (T:=R) a hb 0 true)) <-> 0 < t /\ qpoly a hb 0 t = 0).
+Theorem solve_general_on_exact strict a hb t : min_a_R <= Rabs a ->
+  (In (Some t) (isect2_list (solve_general_gen (T:=R) strict a hb 0 true)) <-> 0 < t /\ qpoly a hb 0 t = 0).
 Proof.
   intros Ha.
   assert (Ha0 : a <> 0). { intros ->. rewrite Rabs_R0 in Ha. pose proof min_a_R_pos. lra. }
-  unfold solve_general. fold (min_a (T:=R)). rewrite min_a_R_eq.
+  unfold solve_general_gen. fold (min_a (T:=R)). rewrite min_a_R_eq.
   change (nleb min_a_R (nabs a)) with (Rleb min_a_R (Rabs a)).
   destruct (Rleb_spec min_a_R (Rabs a)); [|lra].
   apply solve_on_spec. assumption.
 Qed.
-Theorem solve_general_off_window a hb c t : Rabs a < min_a_R ->
-  (In (Some t) (isect2_list (solve_general (T:=R) a hb c false))
-   <-> min_a_R < Rabs hb /\ 0 <= t /\ 2 * hb * t + c = 0).
+Theorem solve_general_off_window strict a hb c t : Rabs a < min_a_R ->
+  (In (Some t) (isect2_list (solve_general_gen (T:=R) strict a hb c false))
+   <-> min_a_R < Rabs hb /\ (if strict then 0 < t else 0 <= t) /\ 2 * hb * t + c = 0).
 Proof.
   intros Ha.
-  unfold solve_general. fold (min_a (T:=R)). rewrite min_a_R_eq.
+  unfold solve_general_gen. fold (min_a (T:=R)). rewrite min_a_R_eq.
   change (nleb min_a_R (nabs a)) with (Rleb min_a_R (Rabs a)).
   destruct (Rleb_spec min_a_R (Rabs a)); [lra|]. cbn [negb].
-  apply solve_along_spec.
+  apply solve_along_gen_spec.
 Qed.
-Theorem solve_general_on_window a hb c t : Rabs a < min_a_R ->
-  ~ In (Some t) (isect2_list (solve_general (T:=R) a hb c true)).
+Theorem solve_general_on_window strict a hb c t : Rabs a < min_a_R ->
+  ~ In (Some t) (isect2_list (solve_general_gen (T:=R) strict a hb c true)).
 Proof.
   intros Ha.
-  unfold solve_general. fold (min_a (T:=R)). rewrite min_a_R_eq.
+  unfold solve_general_gen. fold (min_a (T:=R)). rewrite min_a_R_eq.
   change (nleb min_a_R (nabs a)) with (Rleb min_a_R (Rabs a)).
   destruct (Rleb_spec min_a_R (Rabs a)); [lra|]. cbn. intros [F|[F|[]]]; discriminate.
 Qed.
 
-(** ordering of the general solver's pair *)
 Ltac case_if := match goal with |- context [if ?b then _ else _] => destruct b end.
-Theorem solve_general_ordered a hb c on t0 t1 :
-  solve_general (T:=R) a hb c on = (Some t0, Some t1) -> t0 < t1.
+Theorem solve_general_gen_ordered strict a hb c on t0 t1 :
+  solve_general_gen (T:=R) strict a hb c on = (Some t0, Some t1) -> t0 < t1.
 Proof.
-  unfold solve_general.
+  unfold solve_general_gen.
   case_if.
   - destruct on.
     + unfold solve_on. cbn. case_if; discriminate.
     + apply solve_c_ordered.
   - destruct on; cbn [negb]; [discriminate|].
-    unfold solve_along. case_if; [|discriminate]. case_if; discriminate.
+    unfold solve_along_gen. case_if; [|discriminate]. case_if; discriminate.
 Qed.
+Theorem solve_general_ordered a hb c on t0 t1 :
+  solve_general (T:=R) a hb c on = (Some t0, Some t1) -> t0 < t1.
+Proof. apply solve_general_gen_ordered. Qed.
 
-(** soundness in one statement: a returned distance is a positive root as soon
-    as the ray is not in the tolerance window, or exactly linear (a = 0) and
-    the start point is off the surface *)
-Theorem solve_sound a hb c t :
-  (min_a_R <= Rabs a \/ (a = 0 /\ c <> 0)) ->
-  In (Some t) (isect2_list (solve_general (T:=R) a hb c false)) -> 0 < t /\ qpoly a hb c t = 0.
+(** soundness: a returned distance is a positive root as soon as the ray is
+    not in the tolerance window, or exactly linear (a = 0) and - for the
+    comparison as coded - the start point is off the surface *)
+Theorem solve_sound_gen strict a hb c t :
+  (min_a_R <= Rabs a \/ (a = 0 /\ (strict = true \/ c <> 0))) ->
+  In (Some t) (isect2_list (solve_general_gen (T:=R) strict a hb c false)) -> 0 < t /\ qpoly a hb c t = 0.
 Proof.
   intros [Ha|[Ha Hc]] Hin.
   - apply solve_general_off_exact in Hin; assumption.
   - subst a. apply solve_general_off_window in Hin.
     2:{ rewrite Rabs_R0. apply min_a_R_pos. }
     destruct Hin as (Hb & Ht & E). unfold qpoly. split; [|lra].
+    destruct Hc as [->|Hc]; [assumption|]. destruct strict; [assumption|].
     destruct (Req_dec t 0) as [->|]; [|lra]. exfalso. apply Hc. lra.
 Qed.
-Theorem solve_sound_on a hb t :
-  In (Some t) (isect2_list (solve_general (T:=R) a hb 0 true)) -> 0 < t /\ qpoly a hb 0 t = 0.
+Theorem solve_sound a hb c t :
+  (min_a_R <= Rabs a \/ (a = 0 /\ c <> 0)) ->
+  In (Some t) (isect2_list (solve_general (T:=R) a hb c false)) -> 0 < t /\ qpoly a hb c t = 0.
+Proof. intros H. apply solve_sound_gen. destruct H as [H|[H1 H2]]; auto. Qed.
+(** with the repaired comparison no side condition on c is needed *)
+Theorem solve_sound_repaired a hb c t :
+  (min_a_R <= Rabs a \/ a = 0) ->
+  In (Some t) (isect2_list (solve_general_gen (T:=R) true a hb c false)) -> 0 < t /\ qpoly a hb c t = 0.
+Proof. intros H. apply solve_sound_gen. destruct H as [H|H]; auto. Qed.
+
+Theorem solve_sound_on_gen strict a hb t :
+  In (Some t) (isect2_list (solve_general_gen (T:=R) strict a hb 0 true)) -> 0 < t /\ qpoly a hb 0 t = 0.
 Proof.
   intros Hin. destruct (Rle_lt_dec min_a_R (Rabs a)) as [Ha|Ha].
   - apply solve_general_on_exact in Hin; assumption.
   - exfalso. eapply solve_general_on_window; eauto.
 Qed.
+Theorem solve_sound_on a hb t :
+  In (Some t) (isect2_list (solve_general (T:=R) a hb 0 true)) -> 0 < t /\ qpoly a hb 0 t = 0.
+Proof. apply solve_sound_on_gen. Qed.
+
 (** completeness: every positive root is returned (and the nearest one first) *)
-Theorem solve_complete a hb c t :
+Theorem solve_complete_gen strict a hb c t :
   (min_a_R <= Rabs a \/ (a = 0 /\ min_a_R < Rabs hb)) ->
   0 < t -> qpoly a hb c t = 0 ->
-  exists t0, first_isect (solve_general (T:=R) a hb c false) = Some t0 /\ t0 <= t.
+  exists t0, first_isect (solve_general_gen (T:=R) strict a hb c false) = Some t0 /\ t0 <= t.
 Proof.
   intros Hreg Ht E. apply first_isect_le.
-  - intros t0 t1. apply solve_general_ordered.
+  - intros t0 t1. apply solve_general_gen_ordered.
   - destruct Hreg as [Ha|[Ha Hb]].
     + apply solve_general_off_exact; auto.
     + subst a. apply solve_general_off_window.
       { rewrite Rabs_R0. apply min_a_R_pos. }
-      unfold qpoly in E. repeat split; lra.
+      unfold qpoly in E. repeat split; try lra. destruct strict; lra.
+Qed.
+Theorem solve_complete a hb c t :
+  (min_a_R <= Rabs a \/ (a = 0 /\ min_a_R < Rabs hb)) ->
+  0 < t -> qpoly a hb c t = 0 ->
+  exists t0, first_isect (solve_general (T:=R) a hb c false) = Some t0 /\ t0 <= t.
+Proof. apply solve_complete_gen. Qed.
+Theorem solve_complete_on_gen strict a hb t :
+  min_a_R <= Rabs a -> 0 < t -> qpoly a hb 0 t = 0 ->
+  exists t0, first_isect (solve_general_gen (T:=R) strict a hb 0 true) = Some t0 /\ t0 <= t.
+Proof.
+  intros Ha Ht E. apply first_isect_le.
+  - intros t0 t1. apply solve_general_gen_ordered.
+  - apply solve_general_on_exact; auto.
 Qed.
 Theorem solve_complete_on a hb t :
   min_a_R <= Rabs a -> 0 < t -> qpoly a hb 0 t = 0 ->
   exists t0, first_isect (solve_general (T:=R) a hb 0 true) = Some t0 /\ t0 <= t.
-Proof.
-  intros Ha Ht E. apply first_isect_le.
-  - intros t0 t1. apply solve_general_ordered.
-  - apply solve_general_on_exact; auto.
-Qed.
+Proof. apply solve_complete_on_gen. Qed.
 
 (** the documented tolerance window 0 < |a| < min_a: the ray is treated as
     parallel.  What is returned is the non-negative root of the linearised
     equation (residual of the true polynomial: exactly a t^2), and of any two
     distinct true roots at least one is at distance >= |hb| / |a| > |hb| / min_a
     (the far root that is dropped). *)
-Theorem solve_window_partial a hb c :
+Theorem solve_window_partial strict a hb c :
   0 < Rabs a < min_a_R ->
-  (forall t, In (Some t) (isect2_list (solve_general (T:=R) a hb c false)) ->
+  (forall t, In (Some t) (isect2_list (solve_general_gen (T:=R) strict a hb c false)) ->
              0 <= t /\ 2 * hb * t + c = 0 /\ qpoly a hb c t = a * t * t) /\
   (forall t1 t2, qpoly a hb c t1 = 0 -> qpoly a hb c t2 = 0 -> t1 <> t2 ->
                  Rabs hb / Rabs a <= Rmax (Rabs t1) (Rabs t2)).
 Proof.
   intros [Ha0 Ha]. split.
   - intros t Hin. apply solve_general_off_window in Hin; [|assumption].
-    destruct Hin as (_ & Ht & E). unfold qpoly. repeat split; lra.
+    destruct Hin as (_ & Ht & E). unfold qpoly. repeat split; try lra. destruct strict; lra.
   - intros t1 t2 E1 E2 Hne. unfold qpoly in *.
     assert (Hane : a <> 0). { intros ->. rewrite Rabs_R0 in Ha0. lra. }
     assert (V : a * (t1 + t2) + 2 * hb = 0).
